@@ -12,7 +12,7 @@ Mirrors `/repo/contracts/minters/token-merge-minter/src/contract.rs` (core Lean 
 | `executeReceiveNft`     | `execute_receive_nft` (+ the `burn_message: Some(_)` branch of `_execute_mint`) |
 | `pickToken`             | sold-out check, `MintFor` id range / already-sold check, `random_mintable_token_mapping` (witness) |
 | `adminMint`             | `execute_mint_to` / `execute_mint_for` → `_execute_mint(is_admin = true, burn_message = None)` |
-| `srcTransfer`/`srcBurn`/`canSend` | cw721-base `_transfer_nft` / `burn` / `check_can_send` of a *source* sg721 collection |
+| `srcTransfer`/`srcBurn`/`canSend`/`canApprove` | cw721-base `_transfer_nft` / `burn` / `check_can_send` / `check_can_approve` of a *source* sg721 collection (owner, token approvals and operators with `Never`/`AtTime` expiry) |
 | `tgtMint`               | sg721 `Mint` on the minter's own collection |
 | `runMsgs`               | dispatch of the response messages `[Mint?, Burn]` (any failure fails the transaction) |
 | `step (.send …)`        | sg721 `SendNft` = transfer, then `ReceiveNft` sub-message to the receiving contract |
@@ -20,6 +20,16 @@ Mirrors `/repo/contracts/minters/token-merge-minter/src/contract.rs` (core Lean 
 
 State maps are total functions (absent = 0 / `none`). Addresses, collections, token ids are naturals.
 Randomness is a checked witness (`picked`): the model only requires the picked id to be mintable.
+
+**Projection (round 3).** C17 constrains the deposit ledger, the mints and the burns. Rules that belong to other
+properties — the airdrop payment (C02), who may change start time / limit and to which values (C04/C05/C07),
+when `Purge` / `BurnRemaining` are allowed (C01/C03) — are *not* decided by `step`: the implementation's outcome
+arrives as the checked witness `w`, and `step` only enforces what C17 needs (the frame: the ledger is untouched, the
+target collection changes only through an admin mint; the start time cannot move once it has passed; only the admin
+airdrops). The full rules are still written down in `expected` — the driver prints that verdict behind ` ## `, so
+a legitimate change there shows up as DRIFT, never as a failure of C17. Operations that do not take part in the
+mechanism at all (`Shuffle`, `UpdateStartTradingTime`, sudo `UpdateStatus`, `migrate`, any message variant added
+later) are the frame op `.noise`.
 A failed operation leaves the state unchanged (`step'`) — CosmWasm transaction atomicity; in particular a
 rejected deposit reverts the enclosing `SendNft`, so the token stays where it was.
 -/
@@ -61,8 +71,10 @@ structure State where
   ledger : Addr → Addr → Nat
   /-- source collections: collection → token id → owner -/
   srcOwner : Addr → Nat → Option Addr
-  /-- source collections: token-level approvals (no expiry) -/
-  srcApproved : Addr → Nat → List Addr
+  /-- source collections: token-level approvals (spender, `Expiration`: `none` = never, `some t` = `at_time t`) -/
+  srcApproved : Addr → Nat → List (Addr × Option Nat)
+  /-- source collections: cw721 operators (`ApproveAll`): collection → owner → (operator, expiration) -/
+  srcOperators : Addr → Addr → List (Addr × Option Nat)
   /-- source collections: `num_tokens` -/
   srcNum : Addr → Nat
   /-- the minter's own collection: token id → owner -/
@@ -127,11 +139,26 @@ def executeReceiveNft (s : State) (caller sender : Addr) (tokenId : Nat) (recipi
         else
           .ok { st := { s with ledger := led }, burn := (caller, tokenId), mint := none }
 
-/-- cw721-base `check_can_send` (owner or token-level approval; operators are not modelled) -/
+/-- cw_utils `Expiration::is_expired` for `Never` / `AtTime(t)`: expired iff `block.time ≥ t` -/
+def expired (now : Nat) : Option Nat → Bool
+  | none => false
+  | some t => decide (t ≤ now)
+
+/-- `who` has a live entry in an approval / operator list -/
+def liveIn (now : Nat) (l : List (Addr × Option Nat)) (who : Addr) : Bool :=
+  l.any fun a => a.1 == who && !expired now a.2
+
+/-- cw721-base `check_can_send`: the owner, a non-expired token approval, or a non-expired operator of the owner -/
 def canSend (s : State) (c : Addr) (id : Nat) (who : Addr) : Bool :=
   match s.srcOwner c id with
   | none => false
-  | some o => o == who || (s.srcApproved c id).contains who
+  | some o => o == who || liveIn s.now (s.srcApproved c id) who || liveIn s.now (s.srcOperators c o) who
+
+/-- cw721-base `check_can_approve`: the owner or a non-expired operator of the owner -/
+def canApprove (s : State) (c : Addr) (id : Nat) (who : Addr) : Bool :=
+  match s.srcOwner c id with
+  | none => false
+  | some o => o == who || liveIn s.now (s.srcOperators c o) who
 
 /-- cw721-base `_transfer_nft` on source collection `c` -/
 def srcTransfer (s : State) (caller c : Addr) (id : Nat) (to : Addr) : Except Err State :=
@@ -168,12 +195,13 @@ def checkDynamicLimit (limit numTokens maxLimit : Nat) : Bool :=
   else if numTokens < 100 then decide (limit ≤ 3)
   else decide (limit ≤ (numTokens * 3 + 99) / 100)
 
-/-- `execute_mint_to` / `execute_mint_for`: admin only, exact airdrop price, no ledger involvement,
-no per-address-limit check; the RECIPIENT's mint count is incremented. -/
-def adminMint (s : State) (caller recipient : Addr) (tokenId : Option Nat) (pay : Nat) (picked : Option Nat) :
+/-- `execute_mint_to` / `execute_mint_for`: admin only, no ledger involvement, no per-address-limit check; the
+RECIPIENT's mint count is incremented. Whether the attached payment is acceptable is C02's business: the
+implementation's verdict is the witness `w` (`expected` records the rule "exact airdrop price"). -/
+def adminMint (s : State) (caller recipient : Addr) (tokenId : Option Nat) (w : Bool) (picked : Option Nat) :
     Except Err State :=
   if caller ≠ s.admin then .error .unauthorized
-  else if pay ≠ s.airdropPrice then .error .payment
+  else if w = false then .error .payment
   else match pickToken s tokenId picked with
     | .error e => .error e
     | .ok id =>
@@ -187,20 +215,30 @@ inductive Op where
   | give (coll : Addr) (id : Nat) (to : Addr)
   /-- `TransferNft` on a source collection -/
   | transfer (caller coll : Addr) (id : Nat) (to : Addr)
-  /-- `Approve{spender, token_id, expires: None}` on a source collection (owner only here) -/
-  | approve (caller coll : Addr) (id : Nat) (spender : Addr)
+  /-- `Approve{spender, token_id, expires}` on a source collection (owner or operator) -/
+  | approve (caller coll : Addr) (id : Nat) (spender : Addr) (expires : Option Nat)
+  /-- `Revoke{spender, token_id}` -/
+  | revoke (caller coll : Addr) (id : Nat) (spender : Addr)
+  /-- `ApproveAll{operator, expires}`: `operator` may move every token of `caller` in `coll` -/
+  | approveAll (caller coll operator : Addr) (expires : Option Nat)
+  /-- `RevokeAll{operator}` -/
+  | revokeAll (caller coll operator : Addr)
   /-- `SendNft{contract, token_id, msg}` on source collection `coll`; `msgOk` = the inner message decodes to
   `DepositToken{recipient}` and the recipient string (if any) is a valid address -/
   | send (caller coll : Addr) (id : Nat) (contract : Addr) (recipient : Option Addr) (msgOk : Bool)
       (picked : Option Nat)
   /-- a transaction calling `ReceiveNft` on the minter directly, signed by `caller` -/
   | receive (caller sender : Addr) (id : Nat) (recipient : Option Addr) (msgOk : Bool) (picked : Option Nat)
-  | mintTo (caller recipient : Addr) (pay : Nat) (picked : Option Nat)
-  | mintFor (caller : Addr) (id : Nat) (recipient : Addr) (pay : Nat)
-  | setStart (caller : Addr) (t : Nat)
-  | setLimit (caller : Addr) (n : Nat)
-  | purge (caller : Addr)
-  | burnRemaining (caller : Addr)
+  /-- `w` (here and below) = the implementation's outcome, a checked witness — see the module doc -/
+  | mintTo (caller recipient : Addr) (pay : Nat) (w : Bool) (picked : Option Nat)
+  | mintFor (caller : Addr) (id : Nat) (recipient : Addr) (pay : Nat) (w : Bool)
+  | setStart (caller : Addr) (t : Nat) (w : Bool)
+  | setLimit (caller : Addr) (n : Nat) (w : Bool)
+  | purge (caller : Addr) (w : Bool)
+  | burnRemaining (caller : Addr) (w : Bool)
+  /-- anything that is not part of the deposit mechanism (`Shuffle`, `UpdateStartTradingTime`, sudo
+  `UpdateStatus`, `migrate`, a message variant this model has never heard of): must leave the state alone -/
+  | noise (w : Bool)
 
 def step (s : State) : Op → Except Err State
   | .setTime t => .ok { s with now := t }
@@ -210,11 +248,24 @@ def step (s : State) : Op → Except Err State
                    srcNum := upd1 s.srcNum coll (s.srcNum coll + 1) }
     else .error .invalid
   | .transfer caller coll id to => srcTransfer s caller coll id to
-  | .approve caller coll id spender =>
-    if coll ∈ s.colls ∧ s.srcOwner coll id = some caller then
-      let apr := spender :: (s.srcApproved coll id).filter (· != spender)
+  | .approve caller coll id spender expires =>
+    if coll ∈ s.colls ∧ canApprove s coll id caller = true ∧ expired s.now expires = false then
+      let apr := (spender, expires) :: (s.srcApproved coll id).filter (·.1 != spender)
       .ok { s with srcApproved := upd2 s.srcApproved coll id apr }
     else .error .unauthorized
+  | .revoke caller coll id spender =>
+    if coll ∈ s.colls ∧ canApprove s coll id caller = true then
+      .ok { s with srcApproved := upd2 s.srcApproved coll id ((s.srcApproved coll id).filter (·.1 != spender)) }
+    else .error .unauthorized
+  | .approveAll caller coll operator expires =>
+    if coll ∈ s.colls ∧ expired s.now expires = false then
+      let ops := (operator, expires) :: (s.srcOperators coll caller).filter (·.1 != operator)
+      .ok { s with srcOperators := upd2 s.srcOperators coll caller ops }
+    else .error .invalid
+  | .revokeAll caller coll operator =>
+    if coll ∈ s.colls then
+      .ok { s with srcOperators := upd2 s.srcOperators coll caller ((s.srcOperators coll caller).filter (·.1 != operator)) }
+    else .error .invalid
   | .send caller coll id contract recipient msgOk picked =>
     match srcTransfer s caller coll id contract with
     | .error e => .error e
@@ -229,25 +280,40 @@ def step (s : State) : Op → Except Err State
     else match executeReceiveNft s caller sender id recipient picked with
       | .error e => .error e
       | .ok res => runMsgs res
-  | .mintTo caller recipient pay picked => adminMint s caller recipient none pay picked
-  | .mintFor caller id recipient pay => adminMint s caller recipient (some id) pay none
-  | .setStart caller t =>
-    if caller ≠ s.admin then .error .unauthorized
+  | .mintTo caller recipient _ w picked => adminMint s caller recipient none w picked
+  | .mintFor caller id recipient _ w => adminMint s caller recipient (some id) w none
+  | .setStart _ t w =>
+    -- C17 only needs: the start time cannot move any more once it has been reached (`AlreadyStarted`)
+    if w = false then .error .other
     else if s.start ≤ s.now then .error .tooLate
-    else if t < s.now then .error .invalid
-    else if t < LP.Gen.sg_utils_GENESIS_MINT_START_TIME then .error .invalid
     else .ok { s with start := t }
-  | .setLimit caller n =>
-    if caller ≠ s.admin then .error .unauthorized
-    else if n = 0 ∨ s.maxPerAddressLimit < n then .error .invalid
-    else if checkDynamicLimit n s.numTokens s.maxPerAddressLimit = false then .error .invalid
-    else .ok { s with perAddressLimit := n }
-  | .purge _ =>
-    if s.mintable = [] then .ok { s with mintCount := fun _ => 0 } else .error .invalid
-  | .burnRemaining caller =>
-    if caller ≠ s.admin then .error .unauthorized
-    else if s.mintable = [] then .error .soldOut
-    else .ok { s with mintable := [] }
+  | .setLimit _ n w =>
+    if w = false then .error .other else .ok { s with perAddressLimit := n }
+  | .purge _ w =>
+    if w = false then .error .other else .ok { s with mintCount := fun _ => 0 }
+  | .burnRemaining _ w =>
+    if w = false then .error .other else .ok { s with mintable := [] }
+  | .noise w =>
+    if w = false then .error .other else .ok s
+
+/-- The outcome the rules of the OTHER properties predict for the witnessed operations (exact airdrop price;
+`UpdateStartTime`: admin, not started, `t ≥ now`, `t ≥` genesis; `UpdatePerAddressLimit`: admin, `1..max`, dynamic 3 % rule;
+`Purge`: sold out; `BurnRemaining`: admin, not sold out). Printed by the driver behind ` ## ` only: a difference is
+DRIFT, not a failure of C17. `none` = no opinion. -/
+def expected (s : State) : Op → Option Bool
+  | .mintTo caller _ pay _ picked =>
+    some (decide (caller = s.admin) && decide (pay = s.airdropPrice) && (pickToken s none picked).isOk)
+  | .mintFor caller id _ pay _ =>
+    some (decide (caller = s.admin) && decide (pay = s.airdropPrice) && (pickToken s (some id) none).isOk)
+  | .setStart caller t _ =>
+    some (decide (caller = s.admin) && decide (s.now < s.start) && decide (s.now ≤ t) &&
+      decide (LP.Gen.sg_utils_GENESIS_MINT_START_TIME ≤ t))
+  | .setLimit caller n _ =>
+    some (decide (caller = s.admin) && decide (0 < n) && decide (n ≤ s.maxPerAddressLimit) &&
+      checkDynamicLimit n s.numTokens s.maxPerAddressLimit)
+  | .purge _ _ => some (decide (s.mintable = []))
+  | .burnRemaining caller _ => some (decide (caller = s.admin) && decide (s.mintable ≠ []))
+  | _ => none
 
 /-- transactional semantics: a failed operation leaves the state unchanged -/
 def step' (s : State) (op : Op) : State :=
@@ -265,7 +331,7 @@ def init (self admin : Addr) (colls : List Addr) (required : List (Addr × Nat))
     airdropPrice := airdropPrice, now := now,
     mintable := (List.range numTokens).map (· + 1),
     mintCount := fun _ => 0, ledger := fun _ _ => 0,
-    srcOwner := fun _ _ => none, srcApproved := fun _ _ => [], srcNum := fun _ => 0,
+    srcOwner := fun _ _ => none, srcApproved := fun _ _ => [], srcOperators := fun _ _ => [], srcNum := fun _ => 0,
     tgtOwner := fun _ => none, tgtNum := 0 }
 
 /-! ## queries -/
